@@ -90,9 +90,9 @@ def run(ctx):
             for e in sorted(g['entries']):
                 r.site(e)
             whys = sorted(set(g['whys']))
-            r.bad('entries=' + ','.join(sorted(g['entries'])),
+            r.bad('write-then-fail',
                   'not failure-atomic: `%s` is written in `%s` and a later step (in %s) can still return an error, in operations: %s (%s)'
-                  % (path, w, ', '.join(sorted(g['ffs']))[:300], ', '.join(sorted(g['entries'])), whys[0]), where=whys[:4])
+                  % (path, w, ', '.join(sorted(g['ffs']))[:300], ', '.join(sorted(g['entries'])), whys[0]), where=whys[:4], members=sorted(g['entries']))
             return r
         ctx.check('FAIL-ATOMIC', 'path=%s|writer=%s' % (path, w), one)
     # the exemption for private_tree.self_index relies on who may pass external_leaf = Some
